@@ -17,7 +17,7 @@ def mc_stage(tier):
             'wall_s': round(r.wall, 1)}, cfg
 
 
-def record_pts(pid, path, pcfg, flags, tid0, rng, desc, traces, meta, strings):
+def record_pts(pid, path, pcfg, flags, tid0, rng, desc, traces, meta, strings, otraces=None):
     fileprobs = expand.file_prob_ranks(path, pcfg)
     tid = tid0
     for b, pt in expand.all_pts(pcfg):
@@ -38,6 +38,13 @@ def record_pts(pid, path, pcfg, flags, tid0, rng, desc, traces, meta, strings):
                 ss, done, err = _omen.drain(pcfg.omen_grammar, int(lv), _omen.new_optimizer(), cap=5000)
                 want += ss
             gen_groups = [dict(groups[0], v=[expand.cps(x) for x in lines], fr=[])]
+            if otraces is not None and grp['prob'] > 0 and len(grp['values']) == 1:
+                # independent oracle: TLC's Omen!LevelSet on the model read from the ruleset's own Omen files
+                from . import omen as _o
+                model, ids = _o.neutral_model(os.path.join(path, 'Omen'))
+                otraces.append({'tid': len(otraces) + 1, 'kind': 'level', 'm': model, 'level': int(grp['values'][0]), 'done': True,
+                                'ev': [_o.ids_of(x, ids) for x in lines],
+                                '_meta': {'ruleset': desc, 'flags': flags, 'pt': pt, 'check': 'Markov pre-terminal vs Omen!LevelSet'}})
             if grp['prob'] > 0:
                 m_judged = True
                 groups = [dict(groups[0], v=[expand.cps(x) for x in want])]
@@ -78,6 +85,7 @@ def main(pid, tier, seed):
     mc, mc_cfg = mc_stage(tier)
     work = core.scratch('rules')
     traces, meta, strings = [], {}, []
+    otraces = []
     tid = 0
 
     # ---- spec -> code: the catalogue ruleset (all PTs of the model) ----
@@ -99,7 +107,7 @@ def main(pid, tier, seed):
         for flags in flagsets:
             pcfg = ptq.load_pcfg(d, save_file=os.path.join(d, 'session.sav'), **flags)
             if pid == 'C04':
-                tid = record_pts(pid, d, pcfg, flags, tid, rng, desc, traces, meta, strings)
+                tid = record_pts(pid, d, pcfg, flags, tid, rng, desc, traces, meta, strings, otraces)
             else:
                 full = unlimited_lines(pcfg)
                 total = len(full)
@@ -226,6 +234,15 @@ def main(pid, tier, seed):
             w['lines'] = [''.join(map(chr, x)) for x in t['lines']][:12]
         verdict.violation(w, 'clause %s; %s' % (clause, core.short({k: m[k] for k in m if k != 'ruleset'}, 200)))
 
+    if otraces:
+        ometa = {t['tid']: t.pop('_meta') for t in otraces}
+        ov, ost = core.validate_traces('TrOmen.tla', otraces, chunk=100, timeout=600)
+        for t in otraces:
+            v = ov[t['tid']]
+            if v[0] != 'ACCEPT':
+                failing = list(v[1]) if isinstance(v[1], (tuple, list)) else [v[1]]
+                verdict.violation(dict(ometa[t['tid']], clause='C04_markov_level+' + '+'.join(failing)),
+                                  'Markov pre-terminal does not expand to its OMEN level: %s; %s' % (failing, core.short(ometa[t['tid']]['pt'])))
     verdict.matcher('C09-F14-load-limit-ignores-restored-level',
                     lambda w: w.get('flags', {}).get('load') and w.get('cut_inside_markov') and w.get('clause') in ('C09_length', 'C09_prefix'))
     verdict.matcher('C09-F1-banner-empty-line',
